@@ -1,7 +1,7 @@
 // C07: linear forms equal the exact integral and agree with the bilinear form.
 #include "oplist.h"
 using namespace vf;
-using S = QP;
+using S = vf::DefaultScalar;
 using OL = OpList<S>;
 using bspline::integration::BilinearForm;
 using bspline::integration::LinearForm;
